@@ -560,15 +560,84 @@ theorem SessInv_rebase (s : P2P) (gh : Ghost) (t0 : TLState) (reqs : List Reques
     SessInv s gh (execReqs t0 reqs) [] :=
   ⟨⟨h.tinv.sync, h.tinv.exec, h.tinv.rows⟩, h.asked, h.status, h.remote⟩
 
-/-- A session and the game it drives. The steps are the two things that touch the rollback core
-while nobody is marked disconnected: a remote player's input arrives, and a rollback-mode
-`advance_frame` whose requests the game then executes. -/
+theorem userExecute_fields (s : P2P) (saves : List (Frame × Option Nat)) :
+    (s.userExecute saves).sync.queues = s.sync.queues ∧ (s.userExecute saves).sync.currentFrame = s.sync.currentFrame ∧
+    (s.userExecute saves).sync.cells.length = s.sync.cells.length ∧
+    (s.userExecute saves).pred = s.pred ∧ (s.userExecute saves).localConnectStatus = s.localConnectStatus ∧
+    (s.userExecute saves).handles = s.handles ∧ (s.userExecute saves).sparse = s.sparse := by
+  unfold P2P.userExecute
+  have key : ∀ (l : List (Frame × Option Nat)) (sy : SyncLayer),
+      (l.foldl (fun sy (p : Frame × Option Nat) => sy.userSave p.1 p.2) sy).queues = sy.queues ∧
+      (l.foldl (fun sy (p : Frame × Option Nat) => sy.userSave p.1 p.2) sy).currentFrame = sy.currentFrame ∧
+      (l.foldl (fun sy (p : Frame × Option Nat) => sy.userSave p.1 p.2) sy).cells.length = sy.cells.length := by
+    intro l
+    induction l with
+    | nil => intro sy; exact ⟨rfl, rfl, rfl⟩
+    | cons a as ih =>
+      intro sy
+      simp only [List.foldl_cons]
+      obtain ⟨h1, h2, h3⟩ := ih (sy.userSave a.1 a.2)
+      exact ⟨h1, h2, by rw [h3]; simp [SyncLayer.userSave, rset]⟩
+  obtain ⟨h1, h2, h3⟩ := key saves s.sync
+  refine ⟨?_, ?_, ?_, rfl, rfl, rfl, rfl⟩
+  · exact h1
+  · exact h2
+  · exact h3
+
+theorem userExecute_lastSaved (s : P2P) (saves : List (Frame × Option Nat)) :
+    (s.userExecute saves).sync.lastSavedFrame = s.sync.lastSavedFrame := by
+  unfold P2P.userExecute
+  simp only
+  generalize s.sync = sy
+  induction saves generalizing sy with
+  | nil => rfl
+  | cons a as ih => simp only [List.foldl_cons]; rw [ih]; rfl
+
+/-- The session invariant does not look at the cells. -/
+theorem SessInv_sameQueues (s s2 : P2P) (gh : Ghost) (t : TLState) (reqs : List Request) (h : SessInv s gh t reqs)
+    (hq : s2.sync.queues = s.sync.queues) (hc : s2.sync.currentFrame = s.sync.currentFrame)
+    (hp : s2.pred = s.pred) (hst : s2.localConnectStatus = s.localConnectStatus) (hh : s2.handles = s.handles) :
+    SessInv s2 gh t reqs := by
+  have hlp : s2.localPlayerHandles = s.localPlayerHandles := by unfold P2P.localPlayerHandles; rw [hh]
+  refine ⟨⟨?_, by rw [hc]; exact h.tinv.exec, by rw [hq]; exact h.tinv.rows⟩, by rw [hq, hc]; exact h.asked,
+    by rw [hq, hst]; exact h.status, by rw [hq, hst, hlp]; exact h.remote⟩
+  rw [hp, hst]
+  exact SyncInv_congr h.tinv.sync hq hc
+
+/-- `add_local_input` only ever touches the pending local inputs. -/
+theorem P2P.addLocalInput_pending (s : P2P) (handle : Nat) (input : Input) :
+    ∃ l, (s.addLocalInput handle input).1 = { s with pendingLocalInputs := l } := by
+  unfold P2P.addLocalInput
+  split
+  · exact ⟨s.pendingLocalInputs, rfl⟩
+  · exact ⟨_, rfl⟩
+
+theorem SessInv_pending (s : P2P) (gh : Ghost) (t0 : TLState) (reqs : List Request) (l : List (Nat × PlayerInput))
+    (h : SessInv s gh t0 reqs) : SessInv { s with pendingLocalInputs := l } gh t0 reqs :=
+  SessInv_congr s _ gh t0 reqs h rfl rfl rfl rfl
+
+theorem SessInv_userExecute (s : P2P) (gh : Ghost) (t0 : TLState) (reqs : List Request) (saves : List (Frame × Option Nat))
+    (h : SessInv s gh t0 reqs) : SessInv (s.userExecute saves) gh t0 reqs := by
+  obtain ⟨uq, uc, _, up, ust, uh, _⟩ := userExecute_fields s saves
+  exact SessInv_sameQueues s _ gh t0 reqs h uq uc up ust uh
+
+/-- A session and the game it drives. The steps are the things that touch the rollback core
+while nobody is marked disconnected: the user submits a local input, a remote player's input
+arrives, and a rollback-mode `advance_frame` whose requests the game then executes. -/
 inductive SStep : (P2P × TLState) → (P2P × TLState) → Prop
   | remoteInput (s s' : P2P) (t : TLState) (now : Nat) (inp : PlayerInput) (player : Nat) (handles : List Nat)
       (addr : Nat) : player ∉ s.localPlayerHandles → 0 ≤ inp.frame →
       s.handleEventCore now (.input inp player) handles addr = .ok s' → SStep (s, t) (s', t)
   | tick (s s' : P2P) (t : TLState) (now : Nat) (reqs' : List Request) :
       s.advanceRollbackFrame now [] = .ok (s', reqs') → SStep (s, t) (s', execReqs t reqs')
+  /-- the user submits a local player's input for the coming call (`add_local_input`) -/
+  | localInput (s : P2P) (t : TLState) (handle : Nat) (input : Input) :
+      SStep (s, t) ((s.addLocalInput handle input).1, t)
+  /-- the game fulfils `SaveGameState` requests: cells are written (`cell.save`). Any cell may be
+  written with any frame at any time — a superset of what a game does; the session theorems of this
+  world do not depend on what the cells hold, but a call that rolls back only succeeds (is a step)
+  when the cell it loads holds the frame it loads -/
+  | saves (s : P2P) (t : TLState) (saves : List (Frame × Option Nat)) : SStep (s, t) (s.userExecute saves, t)
 
 inductive SStar : (P2P × TLState) → (P2P × TLState) → Prop
   | refl (x : P2P × TLState) : SStar x x
@@ -584,6 +653,10 @@ theorem SessInv_step (x y : P2P × TLState) (h : ∃ gh, SessInv x.1 gh x.2 []) 
   | tick s s' t now reqs' hadv =>
     obtain ⟨_, _, _, _, gh', _, _, h', _⟩ := advanceRollbackFrame_spec s s' gh t [] reqs' now h hadv
     exact ⟨gh', SessInv_rebase s' gh' t reqs' h'⟩
+  | localInput s t handle input =>
+    obtain ⟨l, hl⟩ := P2P.addLocalInput_pending s handle input
+    exact ⟨gh, by show SessInv (s.addLocalInput handle input).1 gh t []; rw [hl]; exact SessInv_pending s gh t [] l h⟩
+  | saves s t sv => exact ⟨gh, SessInv_userExecute s gh t [] sv h⟩
 
 /-- **L-session.** The session invariant holds after every sequence of steps. -/
 theorem SessInv_run (x y : P2P × TLState) (h : ∃ gh, SessInv x.1 gh x.2 []) (hr : SStar x y) :
